@@ -467,8 +467,15 @@ def run_segment(case, seg_steps, model, root, magick):
                         # OpenCV cannot decode: then the call may raise, but must not return wrong data
                         from PIL import Image as _PI
                         bio = io.BytesIO()
-                        _PI.fromarray(arr[..., 0] if arr.ndim == 3 and arr.shape[-1] == 1 else arr).save(
-                            bio, format="TIFF", compression=op["encoder"][4:])
+                        pim = _PI.fromarray(arr[..., 0] if arr.ndim == 3 and arr.shape[-1] == 1 else arr)
+                        if op["encoder"].startswith("pil-png-exif:"):
+                            # a PNG written by a camera tool: carries an EXIF orientation tag; the byte string still
+                            # encodes the array as it is
+                            ex = _PI.Exif()
+                            ex[0x0112] = int(op["encoder"].split(":")[1])
+                            pim.save(bio, format="PNG", exif=ex)
+                        else:
+                            pim.save(bio, format="TIFF", compression=op["encoder"][4:])
                         data = bio.getvalue()
                     real_cv2 = imread_mod.cv2
                     if op.get("imdecode_fails"):
@@ -774,7 +781,8 @@ class C18Engine(Engine):
                 dt = wl.choice(["uint8", "uint16"])
                 op = {"op": "bytes", "shape": shape, "dtype": dt, "ext": wl.choice([".png", ".tiff", ".tif"]), "id": wl.randint(0, 9999)}
                 if wl.random() < 0.35 and not (dt == "uint16" and chan == 3):
-                    op["encoder"] = "pil:" + wl.choice(["raw", "tiff_lzw", "tiff_adobe_deflate", "tiff_lzma", "zstd", "packbits"])
+                    op["encoder"] = wl.choice(["pil:raw", "pil:tiff_lzw", "pil:tiff_adobe_deflate", "pil:tiff_lzma", "pil:zstd",
+                                               "pil:packbits", "pil-png-exif:3", "pil-png-exif:6", "pil-png-exif:1", "pil-png-exif:8"])
                 if wl.random() < 0.1:
                     op["imdecode_fails"] = True
                 prog.append(op)
